@@ -1173,6 +1173,70 @@ example : dasguptaDefCost false true 3 [[0, 2, 1], [2, 0, 3], [1, 3, 0]]
       ([⟨1, 2, 1, 2⟩, ⟨3, 0, 2, 3⟩] : Dendro Nat) = 5 / 2 := by
   refine ⟨by decide +kernel, by decide +kernel⟩
 
+/-- **`lcaRow` is the smallest cluster containing both nodes**: the first merge whose leaf set contains `u` and `v`
+    is contained in every merge that contains both (leaf sets of a valid dendrogram are nested or disjoint), so it
+    is the cluster of least size / volume containing both ends — the reading of the property text. -/
+theorem lca_smallest {n : Nat} {D : Dendro α} (hv : ValidDendro n D = true) {u v t t' : Nat}
+    (h : lcaRow n D u v = some t) (ht' : t' < D.length) (hu : u ∈ leaves n D (n + t'))
+    (hv' : v ∈ leaves n D (n + t')) : ∀ x ∈ leaves n D (n + t), x ∈ leaves n D (n + t') := by
+  obtain ⟨_, hp, hfirst⟩ := (find?_range _ _ _).mp h
+  simp only [Bool.and_eq_true, List.contains_iff_mem] at hp
+  have htt : t ≤ t' := by
+    by_contra hlt
+    have := hfirst t' (by omega)
+    simp [hu, hv'] at this
+  rcases Nat.lt_or_eq_of_le htt with hlt | he
+  · rcases laminar_lt hv (x := n + t) (y := n + t') (by omega) (by omega) with hsub | hdis
+    · exact hsub
+    · exact absurd hu (hdis u hp.1)
+  · subst he; exact fun x hx => hx
+
+/-- **On a graph without self-loops the cost of the definition is a sum over pairs of distinct nodes**: the only
+    place where the definition departs from the property text (a loop `(u, u)` is charged to the first merge
+    containing `u`, not to the singleton `{u}`, as the code does) has weight zero. With `lca_smallest`:
+    `dasgupta_cost` = Σ_{u ≠ v} p(u,v) · π(smallest cluster containing u and v). -/
+theorem dasguptaDef_loopfree (degree : Bool) (n : Nat) (a : Mat) (D : Dendro α) (hloop : ∀ u, a.get u u = 0) :
+    dasguptaDef degree n a D =
+      sumR ((List.range n).flatMap fun u => (List.range n).map fun v =>
+        if u = v then 0 else
+          match lcaRow n D u v with
+          | some t => (symmetrize n a).get u v / (symmetrize n a).total * clusterWeight degree n a D t
+          | none => 0) := by
+  unfold dasguptaDef
+  have hterm : ∀ u v, (match lcaRow n D u v with
+      | some t => (symmetrize n a).get u v / (symmetrize n a).total * clusterWeight degree n a D t
+      | none => 0) =
+      (if u = v then 0 else
+        match lcaRow n D u v with
+        | some t => (symmetrize n a).get u v / (symmetrize n a).total * clusterWeight degree n a D t
+        | none => 0) := by
+    intro u v
+    by_cases e : u = v
+    · subst e
+      have h0 : (symmetrize n a).get u u = 0 := by
+        rw [symmetrize_get]; split
+        · rw [hloop u]; norm_num
+        · rfl
+      simp only [if_true, h0, zero_div, zero_mul]
+      cases lcaRow n D u u <;> rfl
+    · rw [if_neg e]
+  show sumR ((List.range n).flatMap fun u => (List.range n).map fun v =>
+      match lcaRow n D u v with
+      | some t => (symmetrize n a).get u v / (symmetrize n a).total * clusterWeight degree n a D t
+      | none => 0) = _
+  have hf : (fun u => (List.range n).map fun v =>
+      match lcaRow n D u v with
+      | some t => (symmetrize n a).get u v / (symmetrize n a).total * clusterWeight degree n a D t
+      | none => 0) =
+      (fun u => (List.range n).map fun v =>
+        if u = v then 0 else
+          match lcaRow n D u v with
+          | some t => (symmetrize n a).get u v / (symmetrize n a).total * clusterWeight degree n a D t
+          | none => 0) := by
+    funext u
+    exact congrArg (fun f => (List.range n).map f) (funext fun v => hterm u v)
+  rw [hf]
+
 /-- **Dasgupta's cost and score do not depend on the numbering of the nodes** (`dasgupta_relabel_invariant`; the
     Dasgupta clause of C02). `π`, `πinv` are inverse permutations of the `n` nodes; the renumbered graph has entry
     `(i, j)` equal to the old entry `(πinv i, πinv j)` (`relabelMat`), the renumbered dendrogram has its leaf ids
